@@ -13,7 +13,9 @@ RULE = ("random clusters of 2-4 stores whose views are drawn from one coherent p
         "(host knows its own latest record; others know older or no record; zero heartbeats frequent); "
         "scripts of 3-16 ops over exchange/tick/set_state/restart, 35% ending in an exchange-only suffix that covers "
         "every pair. Non-trivial = script with >=2 exchanges between nodes holding different views, at least one "
-        "record transferred in each direction overall, and a tick/restart/state change; distinct by hash.")
+        "record transferred in each direction overall, and a tick/restart/state change; distinct by hash. 4% of the cases "
+        "are lifecycle scripts: cluster.Open of a bootstrap node over a memkv store, restarted after clean closes and "
+        "after crashes (storage image taken while the previous run is alive).")
 TRUSTED = ["hook aspen/internal/cluster/gossip/export_verif.go (VerifTick = incrementHostHeartbeat)",
            "store.Store + gossip.Gossip + freighter mock unary network run for real; set_state/restart ops are "
            "performed by the harness the way cluster.Open does (Heartbeat.Restart + SetNode)"]
@@ -72,8 +74,16 @@ def gen_case(rng):
     return {"nodes": nodes, "ops": ops}
 
 
+def gen_lifecycle(rng):
+    """cluster.Open over persisted storage: clean restarts and crashes (restart from a storage image taken while the
+    previous run was alive); the k-th start must come up at a strictly newer generation"""
+    return {"kind": "lifecycle", "nodes": [],
+            "ops": [{"op": rng.choice(["restart", "crash", "crash"]), "i": 1} for _ in range(rng.randrange(1, 7))]}
+
+
 def gen_cases(rng, tier, n):
-    return [gen_case(rng) for _ in range(n)]
+    nl = max(4, n // 25)
+    return [gen_case(rng) for _ in range(n - nl)] + [gen_lifecycle(rng) for _ in range(nl)]
 
 
 def c_view(recs):
@@ -91,7 +101,7 @@ def c_op(o):
         return "Tick %s" % cN(o["i"])
     if o["op"] == "set_state":
         return "SetState %s %s" % (cN(o["i"]), cN(o["s"]))
-    return "Restart %s" % cN(o["i"])
+    return "Restart %s" % cN(o["i"])     # "restart" and (lifecycle) "crash": both are a start of a new run
 
 
 def init_dump(case):
@@ -109,10 +119,13 @@ def harness_violation(case, r):
 
 def to_coq(case, r):
     steps = [cpair(c_op(o), c_cluster(d)) for o, d in zip(case["ops"], r["outs"])]
-    return cpair(c_cluster(init_dump(case)), clist(steps))
+    init = r["init"] if case.get("kind") == "lifecycle" else init_dump(case)
+    return cpair(c_cluster(init), clist(steps))
 
 
 def nontrivial(case, r):
+    if case.get("kind") == "lifecycle":
+        return any(o["op"] == "crash" for o in case["ops"]) and len(case["ops"]) >= 2
     ex = [o for o in case["ops"] if o["op"] == "exchange"]
     other = [o for o in case["ops"] if o["op"] != "exchange"]
     if len(ex) < 2 or not other:
@@ -127,6 +140,8 @@ def nontrivial(case, r):
 
 
 def histogram(case, r):
+    if case.get("kind") == "lifecycle":
+        return ["lifecycle"] + ["lifecycle_op=" + o["op"] for o in case["ops"]]
     ks = ["nodes=%d" % len(case["nodes"])]
     for o in case["ops"]:
         ks.append("op=" + o["op"])
@@ -137,6 +152,8 @@ def histogram(case, r):
 
 def neighbours(case, rng):
     out = []
+    if case.get("kind") == "lifecycle":
+        return [gen_lifecycle(rng) for _ in range(10)]
     keys = [n["key"] for n in case["nodes"]]
     for i in range(len(case["ops"])):
         c = json.loads(json.dumps(case))
